@@ -31,7 +31,7 @@ def run(ctx):
         ctx.cov["transitions"] += r.generated
         ctx.notes["tlc"][cfg] = {"states_distinct": r.distinct}
     tr = os.path.join(ctx.scratch, "rootfind.ndjson")
-    rc, out, err = run_vh(ctx, ["rootfind", "trace", tr, "400" if ctx.quick else "6000"])
+    rc, out, err = run_vh(ctx, ["rootfind", "trace", tr, "400" if ctx.quick else "40000"])
     if rc != 0:
         ctx.report({"kind": "crash", "where": "FindRoot"}, "FindRoot crashed the process: " + err[-1000:], {"stderr": err[-3000:]})
         return ctx.finish("model_checking")
